@@ -73,7 +73,8 @@ def chunkExts (relaxed : Bool) : Nat → Bytes → Bytes → ExtRes
           match oneExt relaxed s2 with
           | .need => .need c
           | .bad r => .bad r
-          | .ok s3 => chunkExts relaxed f s3 s3       -- buf_ = tok.remaining(); callerTok = tok
+          | .ok s3 =>                                 -- buf_ = tok.remaining() (when the code has it); callerTok = tok
+            chunkExts relaxed f s3 (if ChunkedSets.extCommit then s3 else c)
         else .done s c                                -- reached the end of extensions (if any)
 
 inductive MetaRes
